@@ -160,6 +160,7 @@ Inductive err :=
 | EKeyError | EIndexError | EValueError | ETypeError | EAttribute | EIOError
 | EUnicode         (* UnicodeDecodeError *)
 | ENotImplemented
+| EDiverge         (* fuel exhausted while following symbolic links (Fs.v); excluded by guard in every theorem *)
 | EUnmodelled.     (* input outside the modelled fragment *)
 
 Inductive res (A : Type) := Ok (a : A) | Err (e : err).
@@ -177,7 +178,7 @@ Definition err_eqb (a b : err) : bool :=
   | EThreshold, EThreshold | ERule, ERule | EBadRetval, EBadRetval | EInvalidMetadata, EInvalidMetadata
   | EPrefix, EPrefix | EKeyExpired, EKeyExpired | ETimeout, ETimeout | EKeyError, EKeyError
   | EIndexError, EIndexError | EValueError, EValueError | ETypeError, ETypeError | EAttribute, EAttribute
-  | EIOError, EIOError | EUnicode, EUnicode | ENotImplemented, ENotImplemented | EUnmodelled, EUnmodelled => true
+  | EIOError, EIOError | EUnicode, EUnicode | ENotImplemented, ENotImplemented | EUnmodelled, EUnmodelled | EDiverge, EDiverge => true
   | _, _ => false
   end.
 
